@@ -72,6 +72,13 @@ def boundary_programs():
                 reqs.append(R("ZREVRANGEBYSCORE", S("kz"), hi, lo, tok("word", w="LIMIT"), I(o), I(c)))
                 reqs.append(R("ZRANGE", S("kz"), lo, hi, tok("word", w="BYSCORE"), tok("word", w="LIMIT"), I(o), I(c)))
         reqs += [R("ZRANGE", S("kz"), x, y) for x in big for y in big] + [R("ZRANGEBYSCORE", S("kz"), I(0), I(9), tok("word", w="LIMIT"), big[0], big[1])]
+        # LIMIT offsets and counts at the 64-bit edges for every range command that takes LIMIT (a loop bounded only by the
+        # client's number must not run for ever), with and without WITHSCORES
+        for o, c in ((big[0], I(1)), (big[0], big[0]), (I(0), big[0]), (I(1), big[1]), (tok("int", big="2^31"), I(2))):
+            for ws in ([], [tok("word", w="WITHSCORES")]):
+                reqs.append(R("ZRANGEBYSCORE", S("kz"), I(0), I(10), tok("word", w="LIMIT"), o, c, *ws))
+                reqs.append(R("ZREVRANGEBYSCORE", S("kz"), I(10), I(0), tok("word", w="LIMIT"), o, c, *ws))
+                reqs.append(R("ZRANGE", S("kz"), I(0), I(10), tok("word", w="BYSCORE"), tok("word", w="LIMIT"), o, c, *ws))
         reqs += [R("ZINCRBY", S("kz"), tok("float", f="+inf"), S("va")), R("ZINCRBY", S("kz"), tok("float", f="-inf"), S("va")), R("ZSCORE", S("kz"), S("va")),
                  R("ZADD", S("kz"), tok("float", f="1e300"), S("vb")), R("ZRANGE", S("kz"), I(0), I(-1), tok("word", w="WITHSCORES"))]
         out.append((setup, reqs))
